@@ -42,10 +42,11 @@ func main() {
 		type li struct {
 			Name   string `json:"name"`
 			Weight int    `json:"weight"`
+			Shards int    `json:"shards"`
 		}
 		var l []li
 		for _, u := range units {
-			l = append(l, li{u.Name, u.Weight})
+			l = append(l, li{u.Name, u.Weight, u.Shards})
 		}
 		json.NewEncoder(os.Stdout).Encode(l)
 		return
